@@ -26,6 +26,9 @@ func (e *Engine) allRepoFunctions() []*ssa.Function {
 		if strings.HasSuffix(pos.Filename, "_test.go") {
 			continue
 		}
+		if fn.Parent() != nil && len(fn.FreeVars) > 0 {
+			continue // closures with captured variables are verified inside their enclosing function
+		}
 		out = append(out, fn)
 	}
 	sort.Slice(out, func(i, j int) bool { return out[i].String() < out[j].String() })
@@ -40,6 +43,28 @@ func main() {
 	switch os.Args[1] {
 	case "sweep":
 		cmdSweep(os.Args[2:])
+	case "check":
+		cmdCheck(os.Args[2:])
+	case "crashcorpus":
+		e := newEngine()
+		outs := runCrashCorpus(e)
+		n := 0
+		for _, o := range outs {
+			if o.Panic != "" {
+				n++
+				fr := ""
+				if len(o.Frames) > 0 {
+					fr = o.Frames[0]
+				}
+				fmt.Printf("PANIC %s %s | %s | %q\n", o.Entry, o.Panic, fr, o.Input)
+			}
+		}
+		fmt.Printf("%d outcomes, %d panics, %d inputs\n", len(outs), n, crashCorpusSize)
+	case "corpus":
+		e := newEngine()
+		for i, s := range candidateInputs(e) {
+			fmt.Printf("--- %d\n%s\n", i, s)
+		}
 	default:
 		fmt.Println("unknown command")
 		os.Exit(2)
@@ -61,6 +86,9 @@ func cmdSweep(args []string) {
 	e.cfg.Kinds = map[string]bool{}
 	for _, k := range strings.Split(*kinds, ",") {
 		e.cfg.Kinds[k] = true
+		if k == "FRAME" {
+			e.cfg.CheckFrame = true
+		}
 	}
 	re := regexp.MustCompile(*match)
 	var reports []FuncReport
